@@ -96,9 +96,15 @@ def gen_cases(tier, seed):
         cases.append({"kind": "lazy", "sizes": [int(s) for s in rng.integers(1, 6, size=d)]})
     # states manager enumeration on real grids
     shapes = [(1, 3, 3), (1, 2, 5), (1, 6, 2), (1, 9, 9), (1, 1, 4), (2, 2, 2), (2, 3, 3), (2, 4, 4), (2, 5, 5),
-              (3, 2, 2), (3, 3, 3)]
+              (3, 2, 2), (3, 3, 3),
+              # origin not centred: the enumeration has to skip indices that fall outside the grid
+              (2, 2, 5), (2, 4, 1), (2, 1, 6), (2, 6, 3), (3, 1, 3), (3, 3, 2), (3, 2, 4)]
     if thorough:
-        shapes += [(1, 20, 31), (1, 40, 7), (2, 8, 8), (2, 12, 12), (3, 4, 4), (3, 5, 5)]
+        shapes += [(1, 20, 31), (1, 40, 7), (2, 8, 8), (2, 12, 12), (3, 4, 4), (3, 5, 5), (2, 3, 14), (2, 11, 4), (3, 2, 6),
+                   (3, 5, 1)]
+        for _ in range(20):
+            d_ = int(rng.integers(2, 4))
+            shapes.append((d_, int(rng.integers(1, 9 if d_ == 2 else 5)), int(rng.integers(1, 9 if d_ == 2 else 5))))
     for d, nl, nr in shapes:
         for order in (["increasing"] if d > 1 else ["increasing", "restart"]):
             cases.append({"kind": "states", "dim": d, "nl": nl, "nr": nr, "order": order})
